@@ -106,12 +106,12 @@ theorem nextStream_spec {buf : Buf} (g eol rest : List UInt8) (pos : Nat) (hg : 
 
 theorem readN_inside {buf : Buf} (pos n : Nat) (h : pos + n < buf.size) (hsz : buf.size ≤ 2147483647) :
     readN buf pos n = .ok ((pos, pos + n), pos + n) := by
-  unfold readN usizeMax
-  rw [if_neg (by omega)]
-  simp only []
-  rw [if_neg (by omega)]
-  simp only [Out.bind_ok]
-  rw [if_pos (by omega), newSubstr_ok (by omega) (by omega)]
+  unfold readN
+  have hm : min (pos + n) usizeMax = pos + n := by unfold usizeMax; omega
+  have h1 : ¬ (pos + n ≥ buf.size) := by omega
+  have h2 : pos < buf.size := by omega
+  simp only [hm, h1, h2, if_false, if_true]
+  rw [newSubstr_ok (by omega) (by omega)]
   rfl
 
 /-- `parse_stream_object` on `g stream EOL data g endstream` -/
